@@ -334,19 +334,21 @@ def run(env):
         env.require_complete(res, name)
         env.pmap(monitor, res.sessions, workload=name)
         env.extra_cov["driver_wall_s_%s" % name] = round(res.wall, 2)
+    # other code generation settings (a build script or cfg can key on them): size-optimised and native-CPU builds every
+    # time, the other opt-levels in the thorough tier
+    matrix = {}
+    mtext = build_positions(env, env.pick(30, 200)).text()
+    for b in env.pick(("opts", "native"), ("opt0", "opt1", "opts", "optz", "native")):
+        rb = env.drive("matrix", mtext, build=b)
+        env.require_complete(rb, "matrix/" + b)
+        env.pmap(monitor, rb.sessions, workload="positions")
+        matrix[b] = sum(len(x.ops) for x in rb.sessions)
+    env.extra_cov["build_configuration_matrix_ops"] = matrix
     if not env.quick():
         res = env.drive("volume", build_volume(env, 66000, 1 << 20).text(), timeout=7200)
         env.require_complete(res, "volume")
         env.pmap(monitor, res.sessions, workload="volume")
         env.extra_cov["volume_bytes_per_context"] = 66000 * (1 << 20)
-        matrix = {}
-        mtext = build_positions(env, 200).text()
-        for b in ("opt0", "opt1", "opts", "optz", "native"):
-            rb = env.drive("matrix", mtext, build=b)
-            env.require_complete(rb, "matrix/" + b)
-            env.pmap(monitor, rb.sessions, workload="positions")
-            matrix[b] = sum(len(x.ops) for x in rb.sessions)
-        env.extra_cov["build_configuration_matrix_ops"] = matrix
         ftext = build_foreign(env).text()
         foreign = {}
         for target in ("i686-unknown-linux-gnu", "s390x-unknown-linux-gnu", "aarch64-unknown-linux-gnu"):
